@@ -258,7 +258,10 @@ def generate(rng, tier):
             "via_app": rng.choice(["dict", "list1"]) if rng.random() < 0.12 else None,
             # the application declares its syntax ids once, as members of a `class Synt(str, Enum)`, and uses the
             # members wherever an id goes (keys of flat description dicts, look-ups): each IS a str equal to the id
-            "keys_as": "strenum" if rng.random() < 0.06 else None}
+            "keys_as": "strenum" if rng.random() < 0.06 else None,
+            # the explicit configuration arrives as a mapping that is not a dict: the application's layered settings
+            # (ChainMap: overrides over the user's file over the site's) or a read-only view (MappingProxyType)
+            "init_as": rng.choice(["chainmap", "proxy"]) if rng.random() < 0.08 else None}
 
 
 def simplify(trace):
@@ -325,8 +328,8 @@ def caller_keys(trace, flat_items):
 
 
 def model_init(trace):
-    """the explicit configuration as the reference resolver reads it (plain string ids)"""
-    return real_init(dict(trace, keys_as=None))
+    """the explicit configuration as the reference resolver reads it (plain string ids, a plain dict)"""
+    return real_init(dict(trace, keys_as=None, init_as=None))
 
 
 def real_init(trace):
@@ -340,6 +343,17 @@ def real_init(trace):
             init[dst] = init[src]
     if trace.get("keys_as") == "strenum" and not (trace.get("init_alias") or ()):
         init = caller_keys(trace, init)
+    how = trace.get("init_as") if not trace.get("via_app") else None     # (the application helper wants a dict)
+    if how == "proxy":
+        import types
+        init = types.MappingProxyType(init)
+    elif how == "chainmap":
+        import collections
+        keys = list(init)
+        upper = {k: init[k] for k in keys[::2]}
+        lower = {k: init[k] for k in keys[1::2]}
+        lower.update({k: "RED" for k in keys[::4]})       # shadowed by the upper layer
+        init = collections.ChainMap(upper, lower)
     return init
 
 
@@ -909,7 +923,7 @@ def execute(trace, rng):
     st["ref_requests"] = rw.ref_requests()
     nontrivial = bool(w.stats["late_resolutions"] or w.stats["explicit_wins"])
     h = hashlib.blake2b(json.dumps([trace["init"], trace.get("init_alias"), trace.get("conf_subclass"),
-                                    trace["components"], trace["ops"], trace.get("no_color"), trace.get("via_app"), trace.get("keys_as")],
+                                    trace["components"], trace["ops"], trace.get("no_color"), trace.get("via_app"), trace.get("keys_as"), trace.get("init_as")],
                                    sort_keys=True).encode(), digest_size=8).hexdigest()
     status.update({"digest": log.digest(), "stats": st, "nontrivial": nontrivial, "case": h,
                    "sim_steps": len(trace["ops"])})
